@@ -13,10 +13,16 @@ Proof.
     + rewrite IH. destruct (N.eqb_spec c k) as [->|Hc]; [|reflexivity].
       destruct (N.eqb_spec k c'); [congruence|reflexivity].
 Qed.
-Lemma put_var_other t col p nm v c : c <> col -> cassoc c (put_var t col p nm v) = cassoc c t.
-Proof. intros H. unfold put_var. rewrite cassoc_cset. destruct (N.eqb_spec c col); [contradiction|reflexivity]. Qed.
-Lemma put_var_keeps t col p nm v c : cassoc c t <> None -> cassoc c (put_var t col p nm v) <> None.
-Proof. intros H. unfold put_var. rewrite cassoc_cset. destruct (N.eqb c col); [discriminate|exact H]. Qed.
+Lemma put_var_other t col p nm v t' c : put_var t col p nm v = Some t' -> c <> col -> cassoc c t' = cassoc c t.
+Proof.
+  unfold put_var. intros E H. destruct (put_at p nm v _); [|discriminate]. inv E.
+  rewrite cassoc_cset. destruct (N.eqb_spec c col); [contradiction|reflexivity].
+Qed.
+Lemma put_var_keeps t col p nm v t' c : put_var t col p nm v = Some t' -> cassoc c t <> None -> cassoc c t' <> None.
+Proof.
+  unfold put_var. intros E H. destruct (put_at p nm v _); [|discriminate]. inv E.
+  rewrite cassoc_cset. destruct (N.eqb c col); [discriminate|exact H].
+Qed.
 
 Lemma make_rng_vars ev p stream s s' : make_rng ev p stream s = Ok s' -> s_vars s' = s_vars s.
 Proof.
@@ -34,12 +40,12 @@ Lemma frame_refl ev s : frame_rel ev s s.  Proof. split; auto. Qed.
 Lemma frame_trans ev a b c : frame_rel ev a b -> frame_rel ev b c -> frame_rel ev a c.
 Proof. intros [A1 A2] [B1 B2]. split; [intros x Hx; now rewrite B1, A1|auto]. Qed.
 
-Lemma frame_put ev s col p nm v cs tr : in_filter (e_mutable ev) col = true ->
-  frame_rel ev s (mkSt (put_var (s_vars s) col p nm v) cs tr).
+Lemma frame_put ev s col p nm v t' cs tr : in_filter (e_mutable ev) col = true ->
+  put_var (s_vars s) col p nm v = Some t' -> frame_rel ev s (mkSt t' cs tr).
 Proof.
-  intros Hm. split; simpl.
-  - intros c Hc. apply put_var_other. intros ->. congruence.
-  - intros c Hc. now apply put_var_keeps.
+  intros Hm E. split; simpl.
+  - intros c Hc. eapply put_var_other; [exact E|]. intros ->. congruence.
+  - intros c Hc. eapply put_var_keeps; eauto.
 Qed.
 Lemma frame_same_vars ev s s' : s_vars s' = s_vars s -> frame_rel ev s s'.
 Proof. intros H. split; intros c Hc; now rewrite H. Qed.
@@ -58,32 +64,37 @@ Section StepFrame.
       + destruct (get_var (s_vars s) (e_params ev) p nm) as [[v|vs]|]; try discriminate.
         destruct (Nat.eqb (length v) (psize n input)); [|discriminate]. inv H. apply frame_refl.
       + destruct (in_filter (e_mutable ev) (e_params ev)) eqn:Em; simpl in H; [|destruct (col_empty (s_vars s) (e_params ev)); discriminate].
-        destruct (make_rng ev p (e_params ev) s) as [s1|] eqn:Er; [|discriminate]. inv H.
-        eapply frame_trans; [apply frame_same_vars; eapply make_rng_vars; eauto|]. now apply frame_put.
+        destruct (make_rng ev p (e_params ev) s) as [s1|] eqn:Er; [|discriminate].
+        destruct (put_var (s_vars s1) (e_params ev) p nm _) as [t'|] eqn:Ep; [|discriminate]. inv H.
+        eapply frame_trans; [apply frame_same_vars; eapply make_rng_vars; eauto|]. eapply frame_put; eauto.
     - (* SVar *)
       destruct (name_reserved (f_resv fr) nm (Some col)); [discriminate|].
       destruct (has_var (s_vars s) col p nm).
       + destruct (get_var (s_vars s) col p nm) as [[v|vs]|]; try discriminate. inv H. apply frame_refl.
       + destruct (in_filter (e_mutable ev) col) eqn:Em; simpl in H; [|destruct (col_empty (s_vars s) col); discriminate].
-        inv H. now apply frame_put.
+        destruct (put_var (s_vars s) col p nm _) as [t'|] eqn:Ep; [|discriminate]. inv H. eapply frame_put; eauto.
     - (* SVarSet *)
       destruct (eval (f_locals fr) input e); [|discriminate].
-      destruct (in_filter (e_mutable ev) col) eqn:Em; [|discriminate]. inv H. now apply frame_put.
+      destruct (in_filter (e_mutable ev) col) eqn:Em; [|discriminate].
+      destruct (put_var (s_vars s) col p nm _) as [t'|] eqn:Ep; [|discriminate]. inv H. eapply frame_put; eauto.
     - (* SSow *)
       destruct (eval (f_locals fr) input e); [|discriminate].
       destruct (in_filter (e_mutable ev) col) eqn:Em; simpl in H; [|inv H; apply frame_refl].
       destruct (has_var (s_vars s) col p nm).
-      + destruct (get_var (s_vars s) col p nm) as [[v0|vs]|]; try discriminate. inv H. now apply frame_put.
-      + destruct (name_reserved (f_resv fr) nm (Some col)); [discriminate|]. inv H. now apply frame_put.
+      + destruct (get_var (s_vars s) col p nm) as [[v0|vs]|]; try discriminate.
+        destruct (put_var (s_vars s) col p nm _) as [t'|] eqn:Ep; [|discriminate]. inv H. eapply frame_put; eauto.
+      + destruct (name_reserved (f_resv fr) nm (Some col)); [discriminate|].
+        destruct (put_var (s_vars s) col p nm _) as [t'|] eqn:Ep; [|discriminate]. inv H. eapply frame_put; eauto.
     - (* SPerturb *)
       destruct (eval (f_locals fr) input e) as [v|]; [|discriminate].
       destruct (in_filter (e_mutable ev) (e_perturb ev) && negb (has_var (s_vars s) (e_perturb ev) p nm)) eqn:Eg.
       + destruct (name_reserved (f_resv fr) nm (Some (e_perturb ev))); [discriminate|].
         apply andb_true_iff in Eg as [Em _].
+        destruct (put_var (s_vars s) (e_perturb ev) p nm _) as [t'|] eqn:Ep; [|discriminate].
         match type of H with context[cassoc ?c ?t] => destruct (cassoc c t) end.
         * match type of H with context[get_var ?t ?c ?q ?m] => destruct (get_var t c q m) as [[old|vs]|] end; try discriminate.
-          destruct (vop add64 v old); [|discriminate]. inv H. now apply frame_put.
-        * inv H. now apply frame_put.
+          destruct (vop add64 v old); [|discriminate]. inv H. eapply frame_put; eauto.
+        * inv H. eapply frame_put; eauto.
       + destruct (cassoc (e_perturb ev) (s_vars s)).
         * destruct (get_var (s_vars s) (e_perturb ev) p nm) as [[old|vs]|]; try discriminate.
           destruct (vop add64 v old); [|discriminate]. inv H. apply frame_refl.
@@ -242,20 +253,26 @@ Section StepKeys.
       + destruct (get_var (s_vars s) (e_params ev) p nm) as [[v|vs]|]; try discriminate.
         destruct (Nat.eqb (length v) (psize n input)); [|discriminate]. inv H. exact I.
       + destruct (negb (mut ev (e_params ev))); [destruct (col_empty (s_vars s) (e_params ev)); discriminate|].
-        destruct (make_rng ev p (e_params ev) s) as [s1|] eqn:Er; [|discriminate]. inv H.
+        destruct (make_rng ev p (e_params ev) s) as [s1|] eqn:Er; [|discriminate].
+        destruct (put_var (s_vars s1) (e_params ev) p nm _) as [t'|]; [|discriminate]. inv H.
         apply keys_inv_param. eapply make_rng_inv; eauto.
     - destruct (name_reserved (f_resv fr) nm (Some col)); [discriminate|].
       destruct (has_var (s_vars s) col p nm).
       + destruct (get_var (s_vars s) col p nm) as [[v|vs]|]; try discriminate. inv H. exact I.
-      + destruct (negb (mut ev col)); [destruct (col_empty (s_vars s) col); discriminate|]. inv H. exact I.
-    - destruct (eval (f_locals fr) input e); [|discriminate]. destruct (mut ev col); [|discriminate]. inv H. exact I.
+      + destruct (negb (mut ev col)); [destruct (col_empty (s_vars s) col); discriminate|].
+        destruct (put_var (s_vars s) col p nm _) as [t'|]; [|discriminate]. inv H. exact I.
+    - destruct (eval (f_locals fr) input e); [|discriminate]. destruct (mut ev col); [|discriminate].
+      destruct (put_var (s_vars s) col p nm _) as [t'|]; [|discriminate]. inv H. exact I.
     - destruct (eval (f_locals fr) input e); [|discriminate]. destruct (negb (mut ev col)); [inv H; exact I|].
       destruct (has_var (s_vars s) col p nm).
-      + destruct (get_var (s_vars s) col p nm) as [[v0|vs]|]; try discriminate. inv H. exact I.
-      + destruct (name_reserved (f_resv fr) nm (Some col)); [discriminate|]. inv H. exact I.
+      + destruct (get_var (s_vars s) col p nm) as [[v0|vs]|]; try discriminate.
+        destruct (put_var (s_vars s) col p nm _) as [t'|]; [|discriminate]. inv H. exact I.
+      + destruct (name_reserved (f_resv fr) nm (Some col)); [discriminate|].
+        destruct (put_var (s_vars s) col p nm _) as [t'|]; [|discriminate]. inv H. exact I.
     - destruct (eval (f_locals fr) input e) as [v|]; [|discriminate].
       destruct (mut ev (e_perturb ev) && negb (has_var (s_vars s) (e_perturb ev) p nm)).
       + destruct (name_reserved (f_resv fr) nm (Some (e_perturb ev))); [discriminate|].
+        destruct (put_var (s_vars s) (e_perturb ev) p nm _) as [t'|]; [|discriminate].
         match type of H with context[cassoc ?c ?t] => destruct (cassoc c t) end.
         * match type of H with context[get_var ?t ?c ?q ?m] => destruct (get_var t c q m) as [[old|vs]|] end; try discriminate.
           destruct (vop add64 v old); [|discriminate]. inv H. exact I.
